@@ -158,6 +158,9 @@ func (BridgeEngine) GenConfig(rng *rand.Rand, prop string, tier string) RunConfi
 		if rng.IntN(8) == 0 {
 			c.Oracles = 6 + rng.IntN(3)
 		}
+		if prop == "C02" && rng.IntN(16) == 0 {
+			c.Oracles = 20 + rng.IntN(31) // sparse runs with large oracle sets
+		}
 		c.SignedWindow = uint64(3 + rng.IntN(30))
 		c.AvgBlockTimeMs = uint64(1000 + rng.IntN(9000))
 		c.AvgExtBlockTimeMs = uint64(500 + rng.IntN(14000))
